@@ -241,6 +241,38 @@ static Verdict run_c10(const Case &c)
       return bad("stream B of two streams from one factory is disturbed by stream A");
     v.classes.push_back("two_streams_interleaved");
   }
+  // a copied factory: the copy gets its own IV through loadiv(), the source another one afterwards; what the copy makes
+  // must be the stream for (key, the copy's IV)
+  if (nb >= 1 && nb <= 64)
+  {
+    bytes iv2 = iv, iv3 = iv;
+    for (size_t i = 0; i < 16; i++)
+    {
+      iv2[i] = (uint8_t)(iv[i] * 5 + 0x21 + i);
+      iv3[i] = (uint8_t)(iv[i] ^ 0xa5);
+    }
+    void *f = wapi::factory_new(key.data(), iv.data());
+    void *fc = wapi::factory_copy(f, iv2.data(), iv3.data());
+    if (fc)
+    {
+      void *a = wapi::factory_make(fc, true, mode);
+      bytes ga = in;
+      for (size_t i = 0; i < nb; i++)
+        wapi::mode_run(a, ga.data() + 16 * i, aoff);
+      wapi::mode_free(a);
+      wapi::factory_free(fc);
+      bytes want2 = ref::mode_encrypt(mode, key.data(), iv2.data(), in);
+      if (ga != want2)
+      {
+        wapi::factory_free(f);
+        return bad(ga == ref::mode_encrypt(mode, key.data(), iv3.data(), in) ? "an encryptor made by a COPY of a factory uses the IV that was loaded into the source factory afterwards, not the copy's own" : ga == want ? "an encryptor made by a COPY of a factory uses the source factory's original IV, not the one loaded into the copy" : "an encryptor made by a copied factory (own IV loaded with loadiv) differs from SP 800-38A for that IV");
+      }
+      v.classes.push_back("copied_factory");
+    }
+    else
+      v.classes.push_back("factory_not_copyable");
+    wapi::factory_free(f);
+  }
   return v;
 }
 
